@@ -12,6 +12,7 @@ Theorem P_load_nodes_roundtrip :
   forall (nodes : list nat) (fp : nat -> list fprow),
   nodup_nat nodes = true ->
   (forall n r, In n nodes -> In r (fp n) -> memb (fp_node r) nodes = true) ->
+  (forall n r, In n nodes -> In r (fp n) -> 0 <= fp_time r) ->     (* D15: rows with a negative walking time are dropped *)
   load_nodes nodes (fun n => FDecoded (map (fun r => {| fm_node := Some (fp_node r); fm_time := fp_time r; fm_dist := fp_dist r |}) (fp n)))
   = NLOk (map (fun n => (n, fp n)) nodes) (map (fun n => (n, derive_rfp nodes fp n)) nodes).
 Proof. exact load_nodes_roundtrip. Qed.
